@@ -4,7 +4,7 @@
 src="$1"; shift
 cd /verif
 for d in $src/C*/m*; do
-  prop=$(basename $(dirname $d)); m=$(basename $d); id="$prop-$m"
+  prop=$(basename $(dirname $d)); m=$(basename $d); id="$prop-${SEED_PREFIX:-}$m"
   [ -n "$1" ] && [[ ! " $* " =~ " $id " ]] && continue
   v=$(tools/verify_mutation.sh $d)
   case "$v" in *"demo_clean=0 applies=yes"*"85 passed"*"demo_mut=0"*) echo "$id UNCONFIRMED $v"; continue;; *"demo_clean=0 applies=yes"*"85 passed"*) ;; *) echo "$id UNCONFIRMED $v"; continue;; esac
